@@ -24,7 +24,7 @@ RULE = ("Cases per format. JSON / JSON5: recursive documents with st.text() over
         "containers, depth <= 6, written with ensure_ascii on and off. CSV: tables of arbitrary text cells incl. quotes, "
         "commas, CR/LF, empty cells and rows. YAML / plist: arbitrary structure (incl. empty and nested containers) over "
         "alphanumeric strings, ints, floats, booleans. XML: element trees with alphanumeric tags, attributes and text. "
-        "Oracle: load(print(load(x))) succeeds and its canonical value (type-tagged; XML text modulo surrounding "
+        "Half of the cases first render a *diff* of the document in the same format and process (what was rendered before must not leak into the next print). Oracle: load(print(load(x))) succeeds and its canonical value (type-tagged; XML text modulo surrounding "
         "whitespace; NaN == NaN) equals that of load(x), where print is the type's default formatter on "
         "Printer(ansi_color=False). Non-trivial: a document with >= 1 container and >= 1 character outside [A-Za-z0-9] "
         "(JSON/JSON5/CSV) or nesting depth >= 2 (others). Distinct by case hash.")
@@ -37,7 +37,7 @@ MANIFEST_TEXT = ("Per-format print/parse round trip over generated documents cov
                  "numbers for JSON/JSON5/CSV; alphanumeric content with arbitrary structure for YAML/plist/XML).")
 MANIFEST_NOTE = "Trusts vf/canon.py's plain() for comparing two graphtage trees; the input files are written by the standard libraries."
 DESIGN_REF = 'DESIGN.md section 3, C12'
-SHRINK = {'docs': ['doc']}
+SHRINK = {'docs': ['doc'], 'enums': {'warm': False}}
 
 
 def _has_empty_container(d):
@@ -60,7 +60,11 @@ jscal = st.one_of(st.none(), st.booleans(), st.integers(), big, st.floats(allow_
                   text_full, text_full)
 jdocs = st.recursive(jscal, lambda ch: st.one_of(st.lists(ch, max_size=4), st.dictionaries(text_full, ch, max_size=4)),
                      max_leaves=10)
-alnum = st.text(alphabet='abcXYZ019', min_size=1, max_size=6)
+alnum = st.one_of(
+    st.text(alphabet='abcXYZ019', min_size=1, max_size=6), st.text(alphabet='abcXYZ019', min_size=1, max_size=6),
+    # alphanumeric spellings that mean something else in some YAML / plist / XML reader when left unquoted
+    st.sampled_from(['0x1F', '0b1010', '0x10', '1e3', '0o17', 'yes', 'no', 'on', 'off', 'null', 'true', 'false', 'y', 'n', '00123',
+                     'Inf', 'NaN', 'nan', '1E5', '0xZZ', '12', '0', 'Null', 'TRUE', 'e3', '0e0']))
 ascal = st.one_of(st.booleans(), st.integers(-1000, 1000), st.floats(allow_nan=False, allow_infinity=False, width=32),
                   st.sampled_from([0.5, 1.0, -2.25]), alnum)
 adocs = st.recursive(ascal, lambda ch: st.one_of(st.lists(ch, max_size=3), st.dictionaries(alnum, ch, max_size=3)), max_leaves=8)
@@ -77,13 +81,17 @@ def xml_docs():
         tags, st.dictionaries(tags, alnum, max_size=2), st.one_of(st.none(), alnum), st.lists(ch, max_size=3)), max_leaves=6)
 
 
+def _warm(strat):
+    return st.tuples(strat, st.booleans()).map(lambda t: dict(t[0], warm=t[1]))
+
+
 STRATS = {
-    'json': st.tuples(jdocs, st.booleans()).map(lambda t: {'fmt': 'json', 'doc': t[0], 'ascii': t[1]}),
-    'json5': jdocs.map(lambda d: {'fmt': 'json5', 'doc': d, 'ascii': True}),
-    'csv': tables.map(lambda d: {'fmt': 'csv', 'doc': d}),
-    'yaml': adocs.map(lambda d: {'fmt': 'yaml', 'doc': d}),
-    'plist': adocs.map(lambda d: {'fmt': 'plist', 'doc': d}),
-    'xml': xml_docs().map(lambda d: {'fmt': 'xml', 'doc': d}),
+    'json': _warm(st.tuples(jdocs, st.booleans()).map(lambda t: {'fmt': 'json', 'doc': t[0], 'ascii': t[1]})),
+    'json5': _warm(jdocs.map(lambda d: {'fmt': 'json5', 'doc': d, 'ascii': True})),
+    'csv': _warm(tables.map(lambda d: {'fmt': 'csv', 'doc': d})),
+    'yaml': _warm(adocs.map(lambda d: {'fmt': 'yaml', 'doc': d})),
+    'plist': _warm(adocs.map(lambda d: {'fmt': 'plist', 'doc': d})),
+    'xml': _warm(xml_docs().map(lambda d: {'fmt': 'xml', 'doc': d})),
 }
 
 
@@ -170,9 +178,42 @@ def special_chars(d):
     return False
 
 
+def grow_strings(d):
+    """the same document with every string (values, cells, text, attribute values) extended at its end"""
+    if isinstance(d, dict):
+        if set(d) == {'tag', 'attrib', 'text', 'children'}:
+            return {'tag': d['tag'], 'attrib': {k: v + 'tage' for k, v in d['attrib'].items()},
+                    'text': (d['text'] + 'tage') if d['text'] else d['text'], 'children': [grow_strings(c) for c in d['children']]}
+        return {k: grow_strings(v) for k, v in d.items()}
+    if isinstance(d, list):
+        return [grow_strings(x) for x in d]
+    if isinstance(d, str):
+        return d + 'tage'
+    return d
+
+
+def warm_up(case):
+    """Render a *diff* in this format (no colour) before the unedited print: what was rendered earlier in the process must
+    not leak into the next rendering. Failures in here are not C12's business."""
+    fmt = case['fmt']
+    try:
+        c2 = dict(case, doc=grow_strings(case['doc']))
+        pa, pb = cli.write_file(serialise(case), cli.EXT[fmt], name='wa'), cli.write_file(serialise(c2), cli.EXT[fmt], name='wb')
+        try:
+            ta, tb = FT[fmt].build_tree(pa), FT[fmt].build_tree(pb)
+            pr = Printer(out_stream=io.StringIO(), ansi_color=False, quiet=True)
+            FT[fmt].get_default_formatter().print(pr, ta.diff(tb))
+        finally:
+            cli.cleanup_files(pa, pb)
+    except Exception:
+        pass
+
+
 def check(case):
     out = Outcome()
     fmt = case['fmt']
+    if case.get('warm'):
+        warm_up(case)
     try:
         data = serialise(case)
         data.decode('utf-8')
